@@ -26,8 +26,7 @@ reg("C06",
            "Value::hash / Value::equals of the real InstanceKey and the unordered_map bucket selection, which makes the engine enumerate all (SMAX+1)^2 value pairs); two identical Count sinks on the same port; a generic "
            "definition Gen wired on the same input at resolved output types TS<Int>, TS<Bool>, TS<Int>; recorders on every output; two script sources with "
            "NX emissions (symbolic times as in C06_order, values in [-1000,1000]); start / window symbolic",
-    outside="interning of nested-graph nodes (nested_<G>, map_, switch_: the deferred-builder add_node overload is exercised by C09/C10-C12 harnesses but "
-            "not for sharing), service nodes, add_unique_node users; scalars of non-integer types; scalar ranges beyond [0,SMAX] (bucket enumeration cap); "
+    outside="interning inside sub-graph wirings and of nested-graph nodes (C06_boundary; map_ / switch_ children: not for sharing), service nodes, add_unique_node users; scalars of non-integer types; scalar ranges beyond [0,SMAX] (bucket enumeration cap); "
             "WiredFn-valued scalars (wired_fn.h identity) are not exercised",
     )
 
@@ -44,9 +43,40 @@ reg("C06",
             "nested / higher-order call sites",
     )
 
+reg("C06",
+    name="C06_boundary", src="harness/C06_boundary.cpp",
+    anchor_files=["src/hgraph/types/graph_wiring.cpp", "include/hgraph/types/graph_wiring.h", "include/hgraph/types/subgraph_wiring.h",
+                  "include/hgraph/types/static_node.h", "src/hgraph/runtime/nested_graph_node.cpp", "src/hgraph/runtime/try_except_node.cpp",
+                  "include/hgraph/lib/std/operators/impl/higher_order_impl.h"],
+    quick=dict(defs=dict(NX=2, DMAX=3, WMAX=4, NORD=2, HOST_TRY=1), symx=dict(shards=16, **{"max-wall": 900})),
+    thorough=dict(defs=dict(NX=3, DMAX=3, WMAX=6, NORD=4, HOST_TRY=1, TRY_MASK=0x33f), symx=dict(shards=16, **{"max-wall": 3000, "shard-depth": 8})),
+    reach=["end", "argument_i_vs_capture_i_both_ticked", "argument_1_vs_capture_1", "argument_i_vs_argument_j", "capture_i_vs_capture_j",
+           "same_port_captured_twice_shared", "same_capture_different_scalar_distinct", "argument_and_capture_of_same_outer_port",
+           "paths_of_one_structural_argument", "structural_argument_path_vs_structural_capture_path", "paths_of_one_structural_capture",
+           "explicit_capture_vs_implicit_capture", "explicit_and_implicit_capture_of_same_port", "two_call_sites_different_inputs",
+           "two_call_sites_same_input_shared", "two_call_sites_same_input_different_scalar", "child_statement_order_permuted",
+           "hosted_by_try_except", "two_output_ticks"],
+    bounds="node sharing INSIDE a compiled child wiring (WiringKind::SubGraph) over boundary sources. One dataflow d1 = Scale(p, k1); d2 = Scale(q, k2); "
+           "Rec0(d1); Rec1(d2); out = Comb(d1, d2) is wired flat in the root wiring and nested (the five statements in a child wiring behind a real "
+           "single_nested_graph_node, and - scenarios TRY_MASK: quick {0, 3, 4, 8}, thorough every scenario with one call site and no structural source - behind the real wire_try_except), both built and run in one path on "
+           "the same script. 13 ENUMERATED scenarios for (p, q): declared argument #0 vs explicit capture #0 (Wiring::capture_outer_source), argument #1 vs "
+           "capture #1 (with unused argument #0 / capture #0), argument #0 vs #1, capture #0 vs #1 (no declared argument), the same outer port captured "
+           "twice, argument #0 vs capture of the same outer port, paths {0} / {1} of one structural TSL argument, path {1} of a structural argument vs "
+           "path {1} of a structural capture, paths {0} / {1} of one structural capture, explicit capture vs implicit closure capture (foreign peered "
+           "port, numbered behind the explicit ones by finish_subgraph), explicit and implicit capture of the same port, two call sites of one nested "
+           "definition on different / the same port (nested NODE interning through the factory overload of add_node, scalar in the identity); equal / "
+           "different scalars where the reference is the same (same capture twice, same call-site input); NORD statement orders inside the child (which Scale is wired and which source captured first; "
+           "recorders before / after the combiner); two script sources with NX emissions (first offset symbolic in [0,DMAX] us, gaps in [1,DMAX] us, "
+           "values in [-1000,1000]); outer ports A, B, F(A), G(B); start symbolic in [0,1000] us; window symbolic in [1,WMAX] us",
+    outside="children of map_ / switch_ / reduce / mesh (their own capture-slot bookkeeping: compile_map_child, compile_switch_branch captured_slots) - the "
+            "interning inside the child is the same Wiring code, only the binding of captured inputs differs; context-published captures "
+            "(resolve_context_source); captures of REF / TSD / TSB-typed ports; grand-child wirings capturing from two levels up; symbolic scalars (C06_intern); "
+            "the Python capture front end (_core.py)",
+    )
+
 META = dict(
     level="bounded symbolic model checking of wiring (graph_wiring.cpp Wiring::add_node interning key hash/equality, build_ranked_graph) together with "
-          "the simulation run of the built graph: relational (reference order vs every admissible permutation) and model-based (un-shared model) oracles; "
+          "the simulation run of the built graph: relational (reference order vs every admissible permutation; nested child wiring over boundary sources vs the same dataflow wired flat) and model-based (un-shared model) oracles; "
           "program shapes and permutations enumerated, scalars / times / values symbolic",
     note="known finding P1 (C06_passive): a passive(b) use and an active use of the same definition/ports/scalars are merged into one instance whose "
          "activity is that of the FIRST wired use - listed in known_findings.jsonl; bounds in evidence coverage.harnesses[*].bounds",
